@@ -1,5 +1,6 @@
 import CV.Drv.Util
 import CV.Model.Core.Machine
+import CV.Model.Core.LogSpec
 /-
 Line protocol for the core machine (model name `core`).
 
@@ -150,6 +151,7 @@ def parseEntry : List String → Option Entry
 
 structure CoreSt where
   st : St := {}
+  tape0 : List Entry := []   -- the complete implementation log as received (for the spec ops)
   fuel : Nat := 20000
   shown : Nat := 0          -- number of log entries already reported
 
@@ -255,7 +257,7 @@ def coreStep (cs : CoreSt) : List String → CoreSt × String
     | none => (cs, "bad-op")
   | "tape" :: rest =>
     match parseEntry rest with
-    | some en => ({ cs with st := { cs.st with tape := cs.st.tape ++ [en] } }, "ok")
+    | some en => ({ cs with st := { cs.st with tape := cs.st.tape ++ [en] }, tape0 := cs.tape0 ++ [en] }, "ok")
     | none => (cs, "bad-op")
   | "do" :: c :: rest =>
     match c.toNat?, parseAct rest with
@@ -282,6 +284,14 @@ def coreStep (cs : CoreSt) : List String → CoreSt × String
     match parseInt d with
     | some d => ({ cs with st := { cs.st with clock := cs.st.clock + d } }, "ok")
     | none => (cs, "bad-op")
+  -- spec predicates on the implementation log (tape0) and on the model log
+  | ["spec", "passorder", which] =>
+    let log := if which == "impl" then cs.tape0 else cs.st.log.reverse
+    (cs, if passOrderOk log then "ok" else "fail pass-order")
+  | ["spec", "handlerorder", which] =>
+    let log := if which == "impl" then cs.tape0 else cs.st.log.reverse
+    let prioOf := fun h => (cs.st.hs.getD h dfltHandler).prio
+    (cs, if handlerOrderOk prioOf log then "ok" else "fail handler-order")
   | ["tree"] => (cs, showTree cs.st)
   | ["values"] => (cs, showValues cs.st)
   | ["residue"] => (cs, showResidue cs.st)
